@@ -20,8 +20,9 @@
    the USING expression) are abstract: N with decidable equality.  A type carries the one
    bit the code looks at: whether `_type_affinity is DateTime`.
 
-   Outside this model (stated in harness/props/c13.py as well): Identity/Computed server
-   defaults, empty-string comments, unnamed type-bound constraints, batch mode.
+   Server defaults that are Identity / Computed objects are in the model (which construct class, which dialect
+   has a visitor, the MySQL / MSSQL pre-blocks); an identity or generation clause lives in the column's default
+   slot.  Outside this model: unnamed type-bound constraints, batch mode with table recreate.
    No proofs in this file. *)
 From Coq Require Import List NArith Bool.
 Import ListNotations.
@@ -40,6 +41,9 @@ Record ty := mkTy {
 Inductive tri (A:Type) := TFalse | TNone | TSome (a:A).
 Arguments TFalse {A}. Arguments TNone {A}. Arguments TSome {A} a.
 
+(* what kind of object a server default is: a plain string / text(), sqlalchemy.Computed, sqlalchemy.Identity *)
+Inductive dkind := KPlain | KComputed | KIdentity.
+
 Record request := mkReq {
   r_type    : option ty;      (* type_ *)
   r_null    : option bool;    (* nullable *)
@@ -47,7 +51,8 @@ Record request := mkReq {
   r_name    : option N;       (* new_column_name *)
   r_comment : tri N;          (* comment: False / None / value *)
   r_autoinc : option bool;    (* autoincrement *)
-  r_using   : option N        (* postgresql_using *)
+  r_using   : option N;       (* postgresql_using *)
+  r_dkind   : dkind           (* kind of the server_default object (meaningful when r_default is a value) *)
 }.
 
 Record existing := mkEx {
@@ -56,7 +61,8 @@ Record existing := mkEx {
   e_null    : option bool;    (* existing_nullable *)
   e_default : tri N;          (* existing_server_default: op.alter_column's default is False *)
   e_comment : option N;       (* existing_comment *)
-  e_autoinc : option bool     (* existing_autoincrement *)
+  e_autoinc : option bool;    (* existing_autoincrement *)
+  e_dkind   : dkind           (* kind of the existing_server_default object (when e_default is a value) *)
 }.
 
 (* the MySQL column specification as rendered by _mysql_colspec:
@@ -81,6 +87,11 @@ Inductive stmt :=
 | MSSQLDropDefault (c:N)                 (* declare @const_name ... sys.default_constraints ... col_name(..) = 'c' ... drop constraint *)
 | MSSQLAddDefault (c:N) (d:N)            (* ALTER TABLE t ADD DEFAULT d FOR c *)
 | MSSQLSpRename (c:N) (n:N)              (* EXEC sp_rename 't.c', n, 'COLUMN' *)
+| AddIdentity (c:N) (v:N)                (* pg: ALTER COLUMN c ADD GENERATED .. AS IDENTITY (..) ; oracle: MODIFY c GENERATED .. AS IDENTITY (..) *)
+| DropIdentity (c:N)                     (* ALTER COLUMN c DROP IDENTITY ; oracle: MODIFY c DROP IDENTITY *)
+| AlterIdentity (c:N) (v:N) (full:bool)  (* pg: ALTER COLUMN c SET .. SET .. : the attributes in which v differs from the existing
+                                            identity (full: from everything, the existing default is not an identity) *)
+| AlterIdentityEmpty (c:N)               (* pg: ALTER COLUMN c <nothing>: the SET loop found no identity attribute to set *)
 | DropConstraint (k:N)                   (* ALTER TABLE t DROP CONSTRAINT k      (type-bound CHECK of the existing type) *)
 | AddConstraint (c:N) (k:N).             (* ALTER TABLE t ADD CONSTRAINT k CHECK (c IN (...))  (type-bound CHECK of the new type) *)
 
@@ -97,8 +108,10 @@ Inductive construct :=
 | ColumnComment (c:option N)
 | ColumnName (n:N)
 | PostgresqlColumnType (t:ty) (usg:option N)
-| MySQLChangeColumn (newname:N) (s:colspec)
-| MySQLModifyColumn (s:colspec)
+| ComputedColumnDefault
+| IdentityColumnDefault (default:option N) (default_is_identity:bool) (existing:tri N) (existing_is_identity:bool)
+| MySQLChangeColumn (newname:N) (s:colspec) (bad_default:bool)   (* bad_default: the default to render is a Computed/Identity *)
+| MySQLModifyColumn (s:colspec) (bad_default:bool)
 | MySQLAlterDefaultC (d:option N)
 | ExecDropConstraint.
 
@@ -138,8 +151,29 @@ Definition compile (d:dialect) (col:N) (c:construct) : stmt + err :=
       end
   | PostgresqlColumnType t u =>
       match d with Dpostgresql => inl (SetType col t u) | _ => inr CompileError end
-  | MySQLChangeColumn n s => if is_mysql d then inl (MySQLChange col n s) else inr CompileError
-  | MySQLModifyColumn s => if is_mysql d then inl (MySQLModify col s) else inr CompileError
+  | ComputedColumnDefault => inr CompileError              (* base.visit_computed_column raises on every dialect *)
+  | IdentityColumnDefault dv di ex ei =>
+      match d with
+      | Dpostgresql =>                                     (* postgresql.visit_identity_column *)
+          match dv with
+          | None => inl (DropIdentity col)
+          | Some v =>
+              match ex with
+              | TNone => if di then inl (AddIdentity col v) else inr OtherErr
+              | _ => if di then inl (AlterIdentity col v (negb (match ex with TSome _ => ei | _ => false end)))
+                     else inl (AlterIdentityEmpty col)    (* _compare_identity_default finds nothing to set *)
+              end
+          end
+      | Doracle =>                                         (* oracle.visit_identity_column *)
+          match dv with
+          | None => inl (DropIdentity col)
+          | Some v => if di then inl (AddIdentity col v) else inr OtherErr   (* visit_identity_column(<str>): AttributeError *)
+          end
+      | _ => inr CompileError                              (* base.visit_identity_column raises *)
+      end
+  (* format_server_default asserts on a Computed / Identity: AssertionError *)
+  | MySQLChangeColumn n s bad => if is_mysql d then (if bad then inr OtherErr else inl (MySQLChange col n s)) else inr CompileError
+  | MySQLModifyColumn s bad => if is_mysql d then (if bad then inr OtherErr else inl (MySQLModify col s)) else inr CompileError
   | MySQLAlterDefaultC dv => if is_mysql d then inl (MySQLAlterDefault col dv) else inr CompileError
   | ExecDropConstraint => match d with Dmssql => inl (MSSQLDropDefault col) | _ => inr CompileError end
   end.
@@ -161,16 +195,36 @@ Definition when (c:bool) (a:out) : out := if c then a else ret.
 Definition isSome {A} (o:option A) : bool := match o with Some _ => true | None => false end.
 Definition given {A} (t:tri A) : bool := match t with TFalse => false | _ => true end.  (* `is not False` *)
 
+(* ------------------------------------------------------------------ sqla_compat._server_default_is_computed / _is_identity:
+   isinstance(x, Computed) / isinstance(x, Identity) of either argument *)
+Definition dkind_eqb (a b:dkind) : bool :=
+  match a, b with KPlain, KPlain | KComputed, KComputed | KIdentity, KIdentity => true | _, _ => false end.
+Definition is_kind (k:dkind) (t:tri N) (tk:dkind) : bool :=
+  dkind_eqb tk k && match t with TSome _ => true | _ => false end.
+Definition _server_default_is_computed (sd:tri N) (sk:dkind) (esd:tri N) (ek:dkind) : bool :=
+  is_kind KComputed sd sk || is_kind KComputed esd ek.
+Definition _server_default_is_identity (sd:tri N) (sk:dkind) (esd:tri N) (ek:dkind) : bool :=
+  is_kind KIdentity sd sk || is_kind KIdentity esd ek.
+
 (* ------------------------------------------------------------------ DefaultImpl.alter_column *)
-(* arguments as in the signature; existing_* other than existing_type are not looked at by any visitor *)
+(* arguments as in the signature; existing_* other than existing_type / existing_server_default are not looked at *)
 Definition default_alter_column (d:dialect) (col:N) (nullable:option bool) (server_default:tri N) (name:option N)
-           (type_:option ty) (comment:tri N) (existing_type:option ty) : out :=
+           (type_:option ty) (comment:tri N) (existing_type:option ty)
+           (sk:dkind) (existing_server_default:tri N) (ek:dkind) : out :=
   (* autoincrement / existing_autoincrement: util.warn only *)
   (match nullable with Some b => exec d col (ColumnNullable b existing_type) | None => ret end) >>
   (match server_default with
    | TFalse => ret
-   | TNone => exec d col (ColumnDefault None)
-   | TSome v => exec d col (ColumnDefault (Some v))
+   | sd =>
+     if _server_default_is_computed sd sk existing_server_default ek then exec d col ComputedColumnDefault
+     else if _server_default_is_identity sd sk existing_server_default ek then
+       exec d col (IdentityColumnDefault (match sd with TSome v => Some v | _ => None end) (is_kind KIdentity sd sk)
+                                         existing_server_default (is_kind KIdentity existing_server_default ek))
+     else match sd with
+          | TFalse => ret
+          | TNone => exec d col (ColumnDefault None)
+          | TSome v => exec d col (ColumnDefault (Some v))
+          end
    end) >>
   (match type_ with Some t => exec d col (ColumnType t) | None => ret end) >>
   (match comment with
@@ -208,22 +262,34 @@ Definition mysql_alter_column (d:dialect) (req:request) (ex:existing) : out :=
   let default := tri_or_else (r_default req) (e_default ex) in
   let autoincrement := or_else (r_autoinc req) (e_autoinc ex) in
   let comment := match r_comment req with TFalse => opt_to_tri (e_comment ex) | c => c end in
-  if isSome (r_name req) || _is_mysql_allowed_functional_default type_ (r_default req) then
+  (* the default that _mysql_colspec renders is a Computed / Identity object *)
+  let bad := match r_default req with
+             | TFalse => negb (dkind_eqb (e_dkind ex) KPlain) && match e_default ex with TSome _ => true | _ => false end
+             | TNone => false
+             | TSome _ => negb (dkind_eqb (r_dkind req) KPlain)
+             end in
+  (* "modifying computed or identity columns is not supported, the default will raise" *)
+  (if _server_default_is_identity (r_default req) (r_dkind req) (e_default ex) (e_dkind ex)
+      || _server_default_is_computed (r_default req) (r_dkind req) (e_default ex) (e_dkind ex)
+   then default_alter_column d col (r_null req) (r_default req) None (r_type req) TFalse (e_type ex)
+                             (r_dkind req) (e_default ex) (e_dkind ex)
+   else ret) >>
+  (if isSome (r_name req) || _is_mysql_allowed_functional_default type_ (r_default req) then
     match type_ with
     | None => raise CommandError                           (* MySQLChangeColumn.__init__ *)
     | Some t => exec d col (MySQLChangeColumn (match r_name req with Some n => n | None => e_name ex end)
-                                          (_mysql_colspec nullable default t autoincrement comment))
+                                          (_mysql_colspec nullable default t autoincrement comment) bad)
     end
   else if isSome (r_null req) || isSome (r_type req) || isSome (r_autoinc req) || given (r_comment req) then
     match type_ with
     | None => raise CommandError
-    | Some t => exec d col (MySQLModifyColumn (_mysql_colspec nullable default t autoincrement comment))
+    | Some t => exec d col (MySQLModifyColumn (_mysql_colspec nullable default t autoincrement comment) bad)
     end
   else match r_default req with
        | TFalse => ret
        | TNone => exec d col (MySQLAlterDefaultC None)
        | TSome v => exec d col (MySQLAlterDefaultC (Some v))
-       end.
+       end).
 
 (* ------------------------------------------------------------------ MSSQLImpl *)
 Definition mssql_alter_column (d:dialect) (req:request) (ex:existing) : out :=
@@ -237,21 +303,28 @@ Definition mssql_alter_column (d:dialect) (req:request) (ex:existing) : out :=
     | None, Some t, _, Some eb => (None, Some eb, None, Some t)
     | None, ty_, et, _ => (None, None, ty_, et)            (* incl. the util.warn branch *)
     end in
+  (* used_default: an Identity / Computed default is handed to DefaultImpl (kw["server_default"] ...) *)
+  let used_default := _server_default_is_identity (r_default req) (r_dkind req) (e_default ex) (e_dkind ex)
+                      || _server_default_is_computed (r_default req) (r_dkind req) (e_default ex) (e_dkind ex) in
   match pre with
   | Some e => raise e
   | None =>
-    default_alter_column d col nullable TFalse None type_ (r_comment req) existing_type >>
+    (if used_default
+     then default_alter_column d col nullable (r_default req) None type_ (r_comment req) existing_type
+                               (r_dkind req) (e_default ex) (e_dkind ex)
+     else default_alter_column d col nullable TFalse None type_ (r_comment req) existing_type KPlain TNone KPlain) >>
     (match r_default req with
      | TFalse => ret
      | sd =>
+       if used_default then ret else
        when (given (e_default ex) || match sd with TNone => true | _ => false end) (exec d col ExecDropConstraint) >>
        (match sd with
-        | TSome v => default_alter_column d col None (TSome v) None None TFalse None
+        | TSome v => default_alter_column d col None (TSome v) None None TFalse None (r_dkind req) TNone KPlain
         | _ => ret
         end)
      end) >>
     (match r_name req with
-     | Some n => default_alter_column d col None TFalse (Some n) None TFalse None
+     | Some n => default_alter_column d col None TFalse (Some n) None TFalse None KPlain TNone KPlain
      | None => ret
      end)
   end.
@@ -262,7 +335,8 @@ Definition postgresql_alter_column (d:dialect) (req:request) (ex:existing) : out
   if isSome (r_using req) && negb (isSome (r_type req)) then raise CommandError
   else
     (match r_type req with Some t => exec d col (PostgresqlColumnType t (r_using req)) | None => ret end) >>
-    default_alter_column d col (r_null req) (r_default req) (r_name req) None (r_comment req) (e_type ex).
+    default_alter_column d col (r_null req) (r_default req) (r_name req) None (r_comment req) (e_type ex)
+                         (r_dkind req) (e_default ex) (e_dkind ex).
 
 (* ------------------------------------------------------------------ dispatch (impl class by dialect name) *)
 Definition alter_column (d:dialect) (req:request) (ex:existing) : out :=
@@ -272,6 +346,7 @@ Definition alter_column (d:dialect) (req:request) (ex:existing) : out :=
   | Dpostgresql => postgresql_alter_column d req ex
   | Ddefault | Dsqlite | Doracle =>
       default_alter_column d (e_name ex) (r_null req) (r_default req) (r_name req) (r_type req) (r_comment req) (e_type ex)
+                           (r_dkind req) (e_default ex) (e_dkind ex)
   end.
 
 (* ------------------------------------------------------------------ toimpl.alter_column:
@@ -325,7 +400,10 @@ Definition apply (st:colstate) (s:stmt) : colstate :=
   (* T-SQL: "ANSI_NULL defaults are always on for ALTER COLUMN; if not specified, the column is nullable" *)
   | MSSQLAlterType _ t => mkCol (c_name st) t true (c_default st) (c_comment st) (c_autoinc st)
   | MSSQLDropDefault _ => mkCol (c_name st) (c_type st) (c_null st) None (c_comment st) (c_autoinc st)
-  | MSSQLAddDefault _ v => mkCol (c_name st) (c_type st) (c_null st) (Some v) (c_comment st) (c_autoinc st)
+  | MSSQLAddDefault _ v | AddIdentity _ v | AlterIdentity _ v _ =>
+      mkCol (c_name st) (c_type st) (c_null st) (Some v) (c_comment st) (c_autoinc st)
+  | DropIdentity _ => mkCol (c_name st) (c_type st) (c_null st) None (c_comment st) (c_autoinc st)
+  | AlterIdentityEmpty _ => st
   (* table-level CHECK constraints: none of the six column attributes *)
   | DropConstraint _ | AddConstraint _ _ => st
   end.
@@ -335,7 +413,8 @@ Definition addr (s:stmt) : option N :=
   match s with
   | SetNull c _ | SetDefault c _ | SetType c _ _ | SetComment c _ | Rename c _ | MySQLChange c _ _ | MySQLModify c _
   | MySQLAlterDefault c _ | MSSQLAlterNull c _ _ | MSSQLAlterType c _ | MSSQLDropDefault c | MSSQLAddDefault c _
-  | MSSQLSpRename c _ | AddConstraint c _ => Some c
+  | MSSQLSpRename c _ | AddConstraint c _ | AddIdentity c _ | DropIdentity c | AlterIdentity c _ _
+  | AlterIdentityEmpty c => Some c
   | DropConstraint _ => None
   end.
 
